@@ -1087,6 +1087,60 @@ def rule_sites(repo):
                       f"deleted signals)", call.lineno)
             else:
                 r.ok(m, qual, cons)
+    # ordering: update blocks spawn named objects lazily (slices / struct fields are created while the read/write sets
+    # are materialised), so everything but the components themselves must be collected AFTER _elaborate_read_write_func
+    erw = _call_sites(addf, '_elaborate_read_write_func')
+    ref = None
+    for fm, fc, ef in _defs(repo, 'elaborate'):
+        e1 = _call_sites(ef, '_elaborate_read_write_func')
+        e2 = _call_sites(ef, '_elaborate_collect_all_named_objects')
+        if e1 and e2:
+            ref = (fc.name, e1[0].lineno < e2[0].lineno)
+            break
+    if ref is None:
+        raise AnalysisError("anchor vanished: elaborate() calling _elaborate_read_write_func and _elaborate_collect_all_named_objects")
+    if not ref[1]:
+        raise AnalysisError(f"{ref[0]}.elaborate collects named objects before elaborating read/write sets; the reference order "
+                            f"this clause relies on is gone")
+
+    def top_idx(node):
+        cur = node
+        while cur is not None and not any(cur is b for b in addf.body):
+            cur = parent(cur)
+        return None if cur is None else [i for i, b in enumerate(addf.body) if b is cur][0]
+    erw_ok = False
+    if len(erw) == 1 and isinstance(erw[0].func.value, ast.Name):
+        loopv = erw[0].func.value.id
+        fors = [a for a in _ancestors(erw[0], addf) if isinstance(a, ast.For) and isinstance(a.target, ast.Name) and a.target.id == loopv]
+        gs = [g for g in _all_guards(erw[0], addf) if g.kind in ('if', 'exit')]
+        if fors and not gs and SetDom(addf).of(fors[0].iter) == frozenset([('coll', new_obj, 'Component')]):
+            erw_ok = True
+    if not erw_ok:
+        r.bad(m, ADD_QUAL, '_elaborate_read_write_func for every added component', "the read/write/call sets of every component "
+              f"collected from `{new_obj}` must be materialised (unconditionally, once) before _collect_vars uses them", addf.lineno)
+    else:
+        r.ok(m, ADD_QUAL, f"_elaborate_read_write_func() for every component of {new_obj}")
+        for c in [n for n in walk_no_nested(addf) if isinstance(n, ast.Call) and isinstance(n.func, ast.Attribute)
+                  and n.func.attr in ('_collect_all', '_collect_all_single') and norm(n.func.value) == new_obj]:
+            lams = c.args[0].elts if c.args and isinstance(c.args[0], (ast.List, ast.Tuple)) else c.args[:1]
+            cls = set()
+            for lam in lams:
+                cl = _lambda_classes(lam)
+                if cl is None:
+                    raise AnalysisError(f"{ADD_QUAL}: collector filter outside the domain: {norm(lam)}")
+                cls |= set(cl)
+            late = sorted(cls - {'Component'})
+            if not late:
+                continue
+            cons = f"{sorted(cls)} of {new_obj} collected after _elaborate_read_write_func"
+            if top_idx(c) is not None and top_idx(c) > top_idx(erw[0]):
+                r.ok(m, ADD_QUAL, cons)
+            else:
+                r.bad(m, ADD_QUAL, f"{late} of {new_obj} collected before _elaborate_read_write_func",
+                      f"`{norm(c)[:90]}` runs before the loop that calls _elaborate_read_write_func(); that call creates the "
+                      f"slice / struct-field signals used only inside update blocks, so they are missing from "
+                      f"{', '.join(a for a in sorted(adds) if set(_classes(frozenset().union(*[x for x, _ in adds[a] if x]))) & set(late))} "
+                      f"after the replacement ({ref[0]}.elaborate collects named objects after this step)", c.lineno)
     # attribute / field registry of the parent (non-list branch)
     rm = [n for n in walk_no_nested(delf) if isinstance(n, ast.Call) and isinstance(n.func, ast.Attribute)
           and n.func.attr in ('remove', 'discard') and _dsl_attr(n.func.value)
@@ -1135,6 +1189,20 @@ def rule_sites(repo):
             if okco and not any(x and ('coll', old_obj, 'MethodPort') in x for x in sa_):
                 r.observations.append("connect_order keeps pairs of removed method ports (acknowledged TODO in the source); "
                                       "only signal pairs are required here")
+    if not co:
+        # comprehension form:  P._dsl.connect_order = [ (a, b) for (a, b) in P._dsl.connect_order if <filter> ]
+        for s2 in delf.body:
+            if isinstance(s2, ast.Assign) and _dsl_attr(s2.targets[0]) and _dsl_attr(s2.targets[0])[1] == 'connect_order' \
+                    and isinstance(s2.value, ast.ListComp) and len(s2.value.generators) == 1:
+                gen = s2.value.generators[0]
+                if _dsl_attr(gen.iter) == _dsl_attr(s2.targets[0]) and isinstance(gen.target, ast.Tuple) and \
+                        len(gen.target.elts) == 2 and norm(s2.value.elt) == norm(gen.target):
+                    a, b = [norm(x) for x in gen.target.elts]
+                    conds = [(t, True) for t in gen.ifs]
+                    sa_ = [dom.of(x) for x in _exclusions(conds, a)[0]]
+                    sb_ = [dom.of(x) for x in _exclusions(conds, b)[0]]
+                    need = ('coll', old_obj, 'Signal')
+                    okco = any(x and need in x for x in sa_) and any(x and need in x for x in sb_)
     if okco:
         r.ok(m, DEL_QUAL, "parent connect_order rebuilt without pairs whose either end is a removed signal")
     else:
@@ -1175,11 +1243,15 @@ def rule_sites(repo):
 # ---------------------------------------------------------------------------
 def _excluded_sets(call_stmt, loop, ovar):
     """sets S with a dominating `ovar not in S` between loop and the statement; other conditions returned apart"""
+    conds = [(g.test, g.polarity) for g in guards_of(call_stmt, stop=loop) if g.kind in ('if', 'exit', 'assert')]
+    return _exclusions(conds, ovar)
+
+
+def _exclusions(conds, ovar):
+    """conds: [(test, polarity)] known to hold; -> ([S with `ovar not in S`], [other (test, polarity)])"""
     ex, other = [], []
-    for g in guards_of(call_stmt, stop=loop):
-        if g.kind not in ('if', 'exit', 'assert'):
-            continue
-        atoms = [(g.test, g.polarity)]
+    for test0, pol0 in conds:
+        atoms = [(test0, pol0)]
         flat = []
         while atoms:
             t, pol = atoms.pop()
@@ -1595,6 +1667,41 @@ def rule_saved(repo):
             else:
                 r.bad(m, ADD_QUAL, f"for {', '.join(tv)} in {p}", f"saved connections are not replayed pairwise "
                       f"(neighbour, eval(name)) through {aps[1]}.add_connections", lp.lineno)
+    # aliasing: purge and restore patch parent._dsl.<F>[blk] in place; the top-level all_<F>[blk] follows only because
+    # _collect_vars stored the component's OWN set object there (or because both are updated explicitly)
+    declared = _declared(repo)
+    add_eff = {}
+    for fm, fc, f in _defs(repo, '_collect_vars'):
+        lf = LevelFn(repo, fm, fc, f, declared, True)
+        for e in lf.effects:
+            add_eff.setdefault(e.agg, []).append((fm, lf.qual, e))
+    for L in lists:
+        if source.get(L, ('', ''))[0] != 'map':
+            continue
+        F = source[L][1]
+        agg = 'all_' + F
+        if agg not in declared:
+            continue       # func_* maps are local to the component: no top-level table to keep in step
+        stores = [(fm, q, e) for fm, q, e in add_eff.get(agg, []) if e.kind == 'assign']
+        cons = f"{agg}[blk] is the very set object {aps[1]}._dsl.{F}[blk]"
+        if not stores:
+            r.bad(m, ADD_QUAL, cons, f"no _collect_vars stores the component's {F} entries into {agg}", addf.lineno)
+            continue
+        copies = [(fm, q, e) for fm, q, e in stores if not (e.val[0] == 'item' and e.val[1] == F and _keyeq(repo, e.key, ('key', e.val[2])))]
+        both = any(isinstance(n, ast.Call) and isinstance(n.func, ast.Attribute) and n.func.attr == 'add' and
+                   isinstance(n.func.value, ast.Subscript) and _top_agg(n.func.value.value, stmt_of(n)) == agg
+                   for n in walk_no_nested(addf)) and \
+            any(isinstance(n, ast.AugAssign) and isinstance(n.op, ast.Sub) and isinstance(n.target, ast.Subscript) and
+                _top_agg(n.target.value, n) == agg for n in walk_no_nested(delf))
+        if copies and not both:
+            fm, q, e = copies[0]
+            r.bad(fm, q, f"{agg}[blk] holds a copy, not the component's own {F} set",
+                  f"`{e.text}` stores {e.val[1] if e.val[0] == 'other' else e.val} instead of the set object m._dsl.{F}[blk]; "
+                  f"_delete_component / _add_component patch {aps[1]}._dsl.{F}[blk] in place ({L}) and never touch {agg}, so after "
+                  f"replacing a child used by a parent block get_all_upblk_metadata() keeps the <deleted> objects and never "
+                  f"gets the new ones", e.node.lineno)
+        else:
+            r.ok(m, ADD_QUAL, cons + (" (both tables updated explicitly)" if copies else ""))
     acf = m.get_func('Component.add_connections')
     me = _params(acf)[0]
     prop = False
@@ -2304,14 +2411,6 @@ MUTANTS = [
       top._dsl.all_components    -= removed_components""", 'R-C15'),
     _m('add-collects-root-only', COMP, """    for c in added_components:
       top._collect_vars( c )""", """    top._collect_vars( obj )""", 'R-C15-sites'),
-    _m('uncollect-root-only', COMP, """        for x in removed_components:
-          # remove consts
-          removed_consts |= x._dsl.consts
-          # uncollect variables
-          top._uncollect_vars( x )""", """        for x in removed_components:
-          # remove consts
-          removed_consts |= x._dsl.consts
-        top._uncollect_vars( foo )""", 'R-C15-sites'),
     _m('uncollect-root-only-after-placeholder-repair', COMP, """      for x in removed_components:
         # remove consts
         removed_consts |= x._dsl.consts
@@ -2334,7 +2433,34 @@ MUTANTS = [
     _m('all-adjacency-node-kept', COMP, "          del top._dsl.all_adjacency[x]\n", "          pass\n", 'R-C15'),
     _m('parent-adjacency-node-kept', COMP, "          del parent._dsl.adjacency[x]\n", "          pass\n", 'R-C15-keys'),
     _m('parent-adjacency-back-edges-kept', COMP, "              parent._dsl.adjacency[other].remove( x )\n", "              pass\n", 'R-C15-keys'),
+    _m('seed-signals-collected-before-rw-elaboration', COMP, """    added_components = obj._collect_all_single( lambda x: isinstance( x, Component ) )
+
+    # First elaborate all functions to spawn more named objects
+    for c in added_components:
+      c._elaborate_read_write_func()
+
+    added_signals, added_method_ports = \\
+      obj._collect_all( [ lambda x: isinstance( x, Signal ), \\
+                          lambda x: isinstance( x, MethodPort ) ] )
+""", """    added_components, added_signals, added_method_ports = \\
+      obj._collect_all( [ lambda x: isinstance( x, Component ), \\
+                          lambda x: isinstance( x, Signal ), \\
+                          lambda x: isinstance( x, MethodPort ) ] )
+
+    for c in added_components:
+      c._elaborate_read_write_func()
+""", 'R-C15-sites'),
+    _m('rw-elaboration-for-root-only', COMP, """    for c in added_components:
+      c._elaborate_read_write_func()
+""", """    obj._elaborate_read_write_func()
+""", 'R-C15-sites'),
     # --- saved lists
+    _m('seed-top-call-table-holds-copies', L2, "        s._dsl.all_upblk_calls[ blk ] = calls\n", "        s._dsl.all_upblk_calls[ blk ] = set( calls )\n",
+       'R-C15-saved'),
+    _m('top-read-table-holds-copies', L2, "      s._dsl.all_upblk_reads.update( m._dsl.upblk_reads )",
+       "      s._dsl.all_upblk_reads.update( { b: set(v) for b, v in m._dsl.upblk_reads.items() } )", 'R-C15'),
+    _m('purge-rebinds-instead-of-in-place', COMP, "        parent._dsl.upblk_calls[blk] -= to_save\n",
+       "        parent._dsl.upblk_calls[blk] = parent._dsl.upblk_calls[blk] - to_save\n", 'R-C15-saved'),
     _m('saved-writes-restored-into-reads', COMP, "      parent._dsl.upblk_writes[blk].add( eval(obj_name) )",
        "      parent._dsl.upblk_reads[blk].add( eval(obj_name) )", 'R-C15-saved'),
     _m('saved-func-calls-not-purged', COMP, "        parent._dsl.func_calls[func] -= to_save\n", "", 'R-C15-saved'),
@@ -2545,6 +2671,21 @@ EQUIV = [
     _m('F3-interfaces-in-one-collect-call', COMP, """      removed_interfaces = foo._collect_all_single( lambda x: isinstance( x, Interface ) )
       top._dsl.all_named_objects -= removed_interfaces
 """, """      top._dsl.all_named_objects -= foo._collect_all_single( lambda ifc: isinstance( ifc, Interface ) )
+"""),
+    _m('connect-order-as-comprehension', COMP, """      new_connect_order = []
+      for (x, y) in parent._dsl.connect_order:
+        if x not in removed_signals and y not in removed_signals: # TODO method port
+          new_connect_order.append( (x, y) )
+
+      parent._dsl.connect_order = new_connect_order
+""", """      parent._dsl.connect_order = [ (x, y) for (x, y) in parent._dsl.connect_order
+                                    if x not in removed_signals and y not in removed_signals ]
+"""),
+    _m('signals-and-ports-collected-separately-after-rw', COMP, """    added_signals, added_method_ports = \\
+      obj._collect_all( [ lambda x: isinstance( x, Signal ), \\
+                          lambda x: isinstance( x, MethodPort ) ] )
+""", """    added_signals = obj._collect_all_single( lambda x: isinstance( x, Signal ) )
+    added_method_ports = obj._collect_all_single( lambda x: isinstance( x, MethodPort ) )
 """),
     _m('add-sets-via-update', COMP, "    top._dsl.all_signals       |= added_signals", "    top._dsl.all_signals.update( added_signals )"),
 ]
